@@ -948,3 +948,202 @@ Proof.
   intros Hd. apply S. exact Hd.
 Qed.
 End WalkRequest3.
+
+(* ------------------------------------------------------------------------------------------ *)
+(* Part D: the invariant of the connection                                                      *)
+(* ------------------------------------------------------------------------------------------ *)
+
+(* the management part: the invariant of PeerProofs2 on the gates with the EndRequest component erased *)
+Definition zero_ge (sg : list (N * N * bytes)) : list (N * N * bytes) := map (fun s => (0, snd (fst s), snd s)) sg.
+
+Lemma zero_ge_app a b : zero_ge (a ++ b) = zero_ge a ++ zero_ge b.
+Proof. apply map_app. Qed.
+
+Lemma flat_zero_ge sg : flat (zero_ge sg) = flat sg.
+Proof. induction sg as [|[[ge gm] b] t IH]; [reflexivity|]. cbn [zero_ge map flat_map fst snd]. f_equal. exact IH. Qed.
+
+Definition Qm (k : bool) (p q : N) (raw out log new : bytes) (sg : list (N * N * bytes)) : Prop :=
+  Q k p q raw out log new (zero_ge sg).
+
+(* the EndRequest part.  A segment not yet opened is a whole request of this client: appended to what may stand between
+   requests it makes a walk, from "waiting for the BeginRequest", that is complete *)
+Definition seg_ok (b : bytes) : Prop := b <> [] /\ forall p q x, VB MI p q x = true -> VB MB p q (x ++ b) = true.
+
+Fixpoint tail_ok (g : N) (l : list (N * N * bytes)) : Prop :=
+  match l with
+  | [] => True
+  | (ge, gm, b) :: t => ge = g /\ seg_ok b /\ tail_ok (g + 1) t
+  end.
+
+Definition EC (l : bytes) : N := fst (counts l).
+
+(* [vm p q]: walk mode and framing position of the parser.  The first segment with bytes left is either opened (its gate
+   was met; what the parser holds, what was read and the rest of the segment are the rest of one request, or of what follows
+   a closed one) or not (then what the parser holds and what was read is that, and the segment is a whole request).
+   EC (log ++ out) + bonus counts the requests closed or begun (or about to begin in an opened segment). *)
+Definition J (vm : vmode) (p q : N) (raw out log new : bytes) (sg : list (N * N * bytes)) : Prop :=
+  forall E0 ge gm b rest, sg = E0 ++ (ge, gm, b) :: rest -> flat E0 = [] -> b <> [] ->
+    tail_ok (ge + 1) rest /\
+    ((ge <= EC log /\ VB vm p q (raw ++ new ++ b) = true /\ ge + 1 <= EC (log ++ out) + bonus vm) \/
+     (VB vm p q (raw ++ new) = true /\ seg_ok b /\ ge <= EC (log ++ out) + bonus vm)).
+
+Definition Q3 (k : bool) (vm : vmode) (p q : N) (raw out log new : bytes) (sg : list (N * N * bytes)) : Prop :=
+  Qm k p q raw out log new sg /\ J vm p q raw out log new sg.
+
+Lemma EC_mono l x : EC l <= EC (l ++ x).
+Proof. apply counts_mono_any. Qed.
+
+Lemma EC_app a b : wholeF a -> wholeF b -> EC (a ++ b) = EC a + EC b.
+Proof. intros Ha Hb. unfold EC. rewrite (counts_app_F a b Ha Hb). reflexivity. Qed.
+
+Lemma bonus_le vm vm' : (vm' = MI -> vm = MI) -> bonus vm <= bonus vm'.
+Proof. intros H. destruct vm'; destruct vm; cbn [bonus]; try lia; discriminate (H eq_refl). Qed.
+
+Lemma J_parse vm p q raw out log new sg vm' p' q' raw' o :
+  (forall u, VB vm p q (raw ++ new ++ u) = true -> VB vm' p' q' (raw' ++ u) = true /\ (vm' = MI -> vm = MI)) ->
+  J vm p q raw out log new sg -> J vm' p' q' raw' (out ++ o) log [] sg.
+Proof.
+  intros L HJ E0 ge gm b rest Es HF Hb. destruct (HJ E0 ge gm b rest Es HF Hb) as [HT [(G1 & G2 & G3)|(G1 & G2 & G3)]].
+  - split; [exact HT|left]. destruct (L b G2) as [V Hm]. split; [exact G1|]. split; [exact V|].
+    pose proof (bonus_le _ _ Hm). pose proof (EC_mono (log ++ out) o). rewrite app_assoc. lia.
+  - split; [exact HT|right]. rewrite <- (app_nil_r new) in G1. destruct (L [] G1) as [V Hm]. split; [exact V|].
+    split; [exact G2|]. pose proof (bonus_le _ _ Hm). pose proof (EC_mono (log ++ out) o). rewrite app_assoc. lia.
+Qed.
+
+Lemma J_flush vm p q raw out log new sg fl out' : out = fl ++ out' ->
+  J vm p q raw out log new sg -> J vm p q raw out' (log ++ fl) new sg.
+Proof.
+  intros -> HJ E0 ge gm b rest Es HF Hb. destruct (HJ E0 ge gm b rest Es HF Hb) as [HT [(G1 & G2 & G3)|(G1 & G2 & G3)]].
+  - split; [exact HT|left]. rewrite <- app_assoc. pose proof (EC_mono log fl). split; [lia|]. split; assumption.
+  - split; [exact HT|right]. rewrite <- app_assoc. split; [exact G1|]. split; assumption.
+Qed.
+
+Lemma J_skip vm p q raw out log new E s : flat E = [] -> J vm p q raw out log new (E ++ s) -> J vm p q raw out log new s.
+Proof.
+  intros HF HJ E0 ge gm b rest Es HF0 Hb. apply (HJ (E ++ E0) ge gm b rest); [rewrite Es, app_assoc; reflexivity| |exact Hb].
+  rewrite flat_map_app, HF, HF0. reflexivity.
+Qed.
+
+Lemma J_log vm p q raw out log new sg x : wholeF log -> wholeF out -> wholeF x ->
+  J vm p q raw out log new sg -> J vm p q raw out (log ++ x) new sg.
+Proof.
+  intros Hl Ho Hx HJ E0 ge gm b rest Es HF Hb.
+  assert (HE : EC (log ++ out) <= EC ((log ++ x) ++ out)).
+  { rewrite (EC_app _ out (wholeF_app _ _ Hl Hx) Ho), (EC_app log x Hl Hx), (EC_app log out Hl Ho). lia. }
+  destruct (HJ E0 ge gm b rest Es HF Hb) as [HT [(G1 & G2 & G3)|(G1 & G2 & G3)]].
+  - split; [exact HT|left]. pose proof (EC_mono log x). split; [lia|]. split; [exact G2|lia].
+  - split; [exact HT|right]. split; [exact G1|]. split; [exact G2|lia].
+Qed.
+
+(* the request in progress is closed: one more EndRequest in the log *)
+Lemma J_close vm p q raw out log log' sg : vm_weak vm = true -> EC log <= EC log' -> EC (log ++ out) + 1 <= EC log' ->
+  J vm p q raw out log [] sg -> J MI p q raw [] log' [] sg.
+Proof.
+  intros Hw H1 H2 HJ E0 ge gm b rest Es HF Hb. rewrite app_nil_r.
+  assert (Hbo : bonus vm <= 1) by (destruct vm; cbn [bonus]; lia).
+  destruct (HJ E0 ge gm b rest Es HF Hb) as [HT [(G1 & G2 & G3)|(G1 & G2 & G3)]].
+  - split; [exact HT|left]. split; [lia|]. split; [apply (VB_weak _ vm _ _ _ (le_n _) Hw G2)|cbn [bonus]; lia].
+  - split; [exact HT|right]. split; [apply (VB_weak _ vm _ _ _ (le_n _) Hw G1)|]. split; [exact G2|cbn [bonus]; lia].
+Qed.
+
+Lemma tail_ok_head g l E0 x r : tail_ok g l -> l = E0 ++ x :: r -> flat E0 = [] -> E0 = [].
+Proof.
+  intros HT -> HF. destruct E0 as [|[[ge gm] b] E1]; [reflexivity|]. exfalso.
+  cbn [app tail_ok] in HT. destruct HT as (_ & [Hb _] & _). cbn [flat_map snd] in HF. apply app_eq_nil in HF. apply Hb, HF.
+Qed.
+
+(* a delivery from the first segment with bytes left, whose gate is met.  If the bytes held so far make a complete walk,
+   the parser stands between requests: the segment is now opened, the walk waits for its BeginRequest *)
+Lemma J_read vm p q raw out log E ge gm bb rest n : flat E = [] -> bb <> [] -> ge <= EC log ->
+  (VB vm p q raw = true -> vm = MI) ->
+  J vm p q raw out log [] (E ++ (ge, gm, bb) :: rest) ->
+  exists vm', (vm' = vm \/ (vm = MI /\ vm' = MB)) /\ J vm' p q raw out log (take n bb) ((ge, gm, drop n bb) :: rest).
+Proof.
+  intros HF Hbb Hge Hvm HJ. destruct (HJ E ge gm bb rest eq_refl HF Hbb) as [HT G].
+  assert (A : exists vm', (vm' = vm \/ (vm = MI /\ vm' = MB)) /\ VB vm' p q (raw ++ bb) = true /\
+                          ge + 1 <= EC (log ++ out) + bonus vm').
+  { destruct G as [(G1 & G2 & G3)|(G1 & G2 & G3)].
+    - exists vm. split; [left; reflexivity|]. split; [exact G2|exact G3].
+    - rewrite app_nil_r in G1. pose proof (Hvm G1) as ->. exists MB. split; [right; split; reflexivity|].
+      split; [apply G2, G1|]. pose proof (EC_mono log out). cbn [bonus]. lia. }
+  destruct A as (vm' & Hvm' & V & C). exists vm'. split; [exact Hvm'|].
+  intros E0 ge' gm' b' rest' Es HF0 Hb'. destruct E0 as [|s0 E1].
+  - cbn [app] in Es. injection Es as <- <- <- <-. split; [exact HT|left]. split; [exact Hge|].
+    rewrite take_drop. split; [exact V|exact C].
+  - cbn [app] in Es. injection Es as <- Er. cbn [flat_map snd] in HF0. apply app_eq_nil in HF0. destruct HF0 as [Hd HF1].
+    pose proof (tail_ok_head _ _ _ _ _ HT Er HF1) as ->. cbn [app] in Er. subst rest.
+    cbn [tail_ok] in HT. destruct HT as (-> & Hs & HT). split; [exact HT|right].
+    assert (Ht : take n bb = bb) by (rewrite <- (take_drop n bb) at 2; rewrite Hd, app_nil_r; reflexivity).
+    rewrite Ht. split; [exact V|]. split; [exact Hs|exact C].
+Qed.
+
+(* a block with the pending output written: the EndRequest part of the gate is met *)
+Lemma J_block vm p q raw out log E ge gm bb rest : flat E = [] -> bb <> [] ->
+  (VB vm p q raw = true -> vm = MI /\ out = []) ->
+  J vm p q raw out log [] (E ++ (ge, gm, bb) :: rest) -> ge <= EC log.
+Proof.
+  intros HF Hbb Hvm HJ. destruct (HJ E ge gm bb rest eq_refl HF Hbb) as [_ [(G1 & _)|(G1 & _ & G3)]]; [exact G1|].
+  rewrite app_nil_r in G1. destruct (Hvm G1) as [-> ->]. rewrite app_nil_r in G3. cbn [bonus] in G3. lia.
+Qed.
+
+(* ---- the two parts together ---- *)
+Lemma Q3_parse k vm p q raw out log new sg k' vm' p' q' raw' o : whole o ->
+  (forall u, WK k p q (raw ++ new ++ u) = padd (snd (counts o)) (WK k' p' q' (raw' ++ u))) ->
+  (forall u, VB vm p q (raw ++ new ++ u) = true -> VB vm' p' q' (raw' ++ u) = true /\ (vm' = MI -> vm = MI)) ->
+  Q3 k vm p q raw out log new sg -> Q3 k' vm' p' q' raw' (out ++ o) log [] sg.
+Proof.
+  intros Ho L1 L2 [H1 H2]. split; [apply (Q_parse k p q raw out log new _ k' p' q' raw' o Ho L1 H1)|apply (J_parse _ _ _ _ _ _ _ _ _ _ _ _ _ L2 H2)].
+Qed.
+
+Lemma Q3_flush k vm p q raw out log new sg fl out' : out = fl ++ out' ->
+  Q3 k vm p q raw out log new sg -> Q3 k vm p q raw out' (log ++ fl) new sg.
+Proof. intros E [H1 H2]. split; [apply (Q_flush _ _ _ _ out _ _ _ fl out' E H1)|apply (J_flush _ _ _ _ out _ _ _ fl out' E H2)]. Qed.
+
+Lemma Q3_skip k vm p q raw out log new E s : flat E = [] -> Q3 k vm p q raw out log new (E ++ s) -> Q3 k vm p q raw out log new s.
+Proof.
+  intros HF [H1 H2]. split; [|apply (J_skip _ _ _ _ _ _ _ E s HF H2)].
+  unfold Qm in *. rewrite zero_ge_app in H1. apply (Q_skip _ _ _ _ _ _ _ (zero_ge E) _); [rewrite flat_zero_ge; exact HF|exact H1].
+Qed.
+
+Lemma Q3_log k vm p q raw out log new sg x : wholeF log -> wholeF out -> wholeF x ->
+  Q3 k vm p q raw out log new sg -> Q3 k vm p q raw out (log ++ x) new sg.
+Proof. intros Hl Ho Hx [H1 H2]. split; [apply Q_log; assumption|apply J_log; assumption]. Qed.
+
+Lemma Q3_world k vm p q raw out log new sg : Q3 k vm p q raw out log new sg -> wholeF (log ++ out).
+Proof. intros [H _]. apply (Q_world _ _ _ _ _ _ _ _ H). Qed.
+
+Lemma Q3_k k k' vm p q raw out log new sg : (forall w, WK k p q w = WK k' p q w) ->
+  Q3 k vm p q raw out log new sg -> Q3 k' vm p q raw out log new sg.
+Proof. intros H [H1 H2]. split; [apply (Q_pos k p q k' p q); assumption|exact H2]. Qed.
+
+Lemma Q3_read k vm p q raw out log E ge gm bb rest n : flat E = [] -> bb <> [] -> gate_met (counts log) ge gm ->
+  (VB vm p q raw = true -> vm = MI) ->
+  Q3 k vm p q raw out log [] (E ++ (ge, gm, bb) :: rest) ->
+  exists vm', (vm' = vm \/ (vm = MI /\ vm' = MB)) /\ Q3 k vm' p q raw out log (take n bb) ((ge, gm, drop n bb) :: rest).
+Proof.
+  intros HF Hbb [Hge Hgm] Hvm [H1 H2].
+  destruct (J_read vm p q raw out log E ge gm bb rest n HF Hbb Hge Hvm H2) as (vm' & Hvm' & HJ).
+  exists vm'. split; [exact Hvm'|]. split; [|exact HJ].
+  unfold Qm in *. rewrite zero_ge_app in H1. cbn [zero_ge map fst snd] in *.
+  apply (Q_read _ _ _ _ _ _ (zero_ge E) 0 gm bb); [rewrite flat_zero_ge; exact HF|exact Hbb|exact Hgm|exact H1].
+Qed.
+
+Lemma Q3_block k vm p q raw log E ge gm bb rest : flat E = [] -> bb <> [] -> fst (WK k p q raw) = 0 ->
+  (VB vm p q raw = true -> vm = MI) ->
+  Q3 k vm p q raw [] log [] (E ++ (ge, gm, bb) :: rest) -> gate_met (counts log) ge gm.
+Proof.
+  intros HF Hbb H0 Hvm [H1 H2]. split.
+  - apply (J_block vm p q raw [] log E ge gm bb rest HF Hbb); [|exact H2]. intros V. split; [apply Hvm, V|reflexivity].
+  - unfold Qm in H1. rewrite zero_ge_app in H1. cbn [zero_ge map fst snd] in H1.
+    apply (Q_block _ _ _ _ _ (zero_ge E) 0 gm bb _ ltac:(rewrite flat_zero_ge; exact HF) Hbb H0 H1).
+Qed.
+
+Lemma Q3_block_mid k vm p q raw out log E ge gm bb rest : flat E = [] -> bb <> [] -> snd (WK k p q raw) = false ->
+  VB vm p q raw = false ->
+  Q3 k vm p q raw out log [] (E ++ (ge, gm, bb) :: rest) -> gate_met (counts log) ge gm.
+Proof.
+  intros HF Hbb H0 Hvm [H1 H2]. split.
+  - apply (J_block vm p q raw out log E ge gm bb rest HF Hbb); [|exact H2]. intros V. rewrite V in Hvm. discriminate Hvm.
+  - unfold Qm in H1. rewrite zero_ge_app in H1. cbn [zero_ge map fst snd] in H1.
+    apply (Q_block_mid _ _ _ _ _ _ (zero_ge E) 0 gm bb _ ltac:(rewrite flat_zero_ge; exact HF) Hbb H0 H1).
+Qed.
